@@ -41,7 +41,8 @@ InnerBlk(nm) == [type |-> B("inner"), name |-> nm, ents |-> << Ent(B("x"), IntV(
 Keys == IF Small THEN {"x", "X", "_x", "foo_bar", "foobar", "y", "name", "p"} ELSE {"x", "X", "_x", "X_", "foo_bar", "foobar", "f_oo_bar", "_foo__bar_", "y", "any", "name", "p"}
 EntsPool == { Ent(B(k), v) : k \in Keys, v \in (IF Small THEN {IntV(1), StrV(B("s")), NilV} ELSE Vals) }
               \cup { Ent(B("x"), StrV(Esc)), Ent(B("foo_bar"), IntV(-5)), Ent(B("y"), StrV(<<>>)) }
-              \cup { EntB(B("inner"), InnerBlk(<<>>)), EntB(B("inner.n"), InnerBlk(B("n"))) }
+              \cup { EntB(B("inner"), InnerBlk(<<>>)), EntB(B("inner.n"), InnerBlk(B("n"))),
+                     EntB(B("any"), [type |-> B("any"), name |-> <<>>, ents |-> << Ent(B("x"), IntV(7)) >>]) }   \* a nested block aimed at an interface field
 DistinctKeys(es) == \A i, j \in 1..Len(es) : i # j => es[i].k # es[j].k
 
 VARIABLES d, tn, blk, phase, tk, bk, nblk
